@@ -13,12 +13,7 @@ import os
 
 import vf
 
-ACCEPTED_WHY = {
-    "peer close does not exist on a datagram transport",
-    "no acknowledgements on a stream transport",
-    "discovery is a server operation (see transport udpserver)",
-    "a one-way write does not block on a stream transport",
-}
+ACCEPTED_WHY = set()      # the spec's tuples are per transport: every one of them must be steerable
 
 
 def run(ctx):
@@ -26,9 +21,16 @@ def run(ctx):
     vf.build_driver(ctx)
     # ---- design level ----------------------------------------------------------------------------------
     tuples = None
-    for cfg, expect in (("MC_Cancel.cfg", None), ("MC_Cancel_srvconn.cfg", None),
-                        ("MC_Cancel_pinned.cfg", "Ends"), ("MC_Cancel_nonatomic.cfg", "OnceEach")):
-        r = vf.run_tlc(ctx, "cancel", "MC_Cancel", cfg, workers=4, timeout=900, cont=False)
+    # (config, expected violation): the last three are vacuity guards - the pinned Ping select, a refused write that
+    # keeps the NSTART slot, a non-atomic pop must each break the property they exist for
+    design = [("MC_Cancel_calls2_dg.cfg", None), ("MC_Cancel_calls2_st.cfg", None), ("MC_Cancel_calls2_srv.cfg", None),
+              ("MC_Cancel_close_rd.cfg", None), ("MC_Cancel_close_sh.cfg", None),
+              ("MC_Cancel_mut_pinned.cfg", "Ends"), ("MC_Cancel_mut_pop.cfg", "OnceEach")]
+    if thorough:
+        design += [("MC_Cancel_calls_dg.cfg", None), ("MC_Cancel_calls_st.cfg", None), ("MC_Cancel_calls_srv.cfg", None),
+                   ("MC_Cancel_mut_leak.cfg", "Ends")]
+    for cfg, expect in design:
+        r = vf.run_tlc(ctx, "cancel", "MC_Cancel", cfg, workers=8 if thorough else 4, timeout=3600, cont=False)
         if expect is None:
             vf.tlc_must_finish(r, cfg)
             if r.inv or r.props:
@@ -78,11 +80,11 @@ def run(ctx):
     if ctx.cov["server_stop_scenarios_steered"] * 10 < len(srv) * 9:
         raise vf.Machinery("server scenarios not steered: %s" % [s for s in srv if s["inflight"] != s["clients"]][:2])
     # every spec tuple must have been reached on some transport
-    want = set((t["op"], t["pt"], t["kind"], t["noise"]) for t in ts)
-    have = set((r["op"], r["pt"], r["kind"], r["noise"]) for r in reached)
+    want = set((t["op"], t["pt"], t["kind"], t["noise"], t["datagram"]) for t in ts)
+    have = set((r["op"], r["pt"], r["kind"], r["noise"], r["transport"] != "tcp") for r in reached)
     miss = sorted(want - have)
     ctx.cov["spec_tuples_reached_on_real_code"] = len(want & have)
-    ctx.cov["spec_tuples_unreachable"] = ["/".join(m) for m in miss]
+    ctx.cov["spec_tuples_unreachable"] = ["/".join(str(x) for x in m) for m in miss]
     for clause, idxs in sorted(bad.items()):
         rs = [allrecs[i] for i in idxs]
         if clause.startswith("K09"):
